@@ -10,7 +10,7 @@ from checks import c48
 META = {
     "engine": "mtest", "level": "exploration", "design_ref": "DESIGN.md §4.6 C53",
     "technique": "generated .ptest inputs (isotropic elastic behaviour built from the reference Elasticity.mfront, generic interface, small strain) run by `mtest --scheme=ptest` on meshes N, 2N, 4N; radial/hoop/axial stresses at the Gauss points of the @Profile file, inner/outer displacements and axial strain of the result file compared with the closed-form Lame solution of the selected axial loading; error bound C.(h/Ri)^p and observed convergence order",
-    "text": "For random inner radius (1e-3..1), thickness ratio (0.01..2), inner/outer pressures of either sign, E, nu, element type (Linear, Quadratic, Cubic), base element count (1..50, refined x2 and x4) and axial loading (None = zero axial force, EndCapEffect = pi(Ri^2 Pi - Re^2 Pe), ImposedAxialForce, ImposedAxialGrowth = imposed uniform axial strain; semantics read from docs/mtest/ptest/AxialLoading.md and checked against PipeTest.cxx), the stresses A -/+ B/r^2, sigma_zz = 2 nu A + E ezz and u(r) = r (sigma_tt - nu (sigma_rr + sigma_zz))/E are compared with the PipeTest output. Required: finite results; stress and axial-strain errors (relative to |A|+|B|/Ri^2) below 100 (h/Ri)^p + 1e-6 with p = 1, 2, 3; displacement errors below 100 (h/Ri)^(p+1) + 1e-6 (1e-6: 25x the rounding floor observed on thin pipes with 200 cubic elements); errors decreasing under refinement while above 1e-5; observed order of the stress error at least p - 0.5 when the coarser mesh has h/Ri <= 0.15 and the errors are above 1e-5.",
+    "text": "For random inner radius (1e-3..1), thickness ratio (0.01..2), inner/outer pressures of either sign applied as constants, as one-step ramps from zero or up to twice the final value then down in four steps (the final state of a linear elastic pipe only depends on the final loads), E, nu, element type (Linear, Quadratic, Cubic), base element count (1..50, refined x2 and x4) and axial loading (None = zero axial force, EndCapEffect = pi(Ri^2 Pi - Re^2 Pe), ImposedAxialForce, ImposedAxialGrowth = imposed uniform axial strain; semantics read from docs/mtest/ptest/AxialLoading.md and checked against PipeTest.cxx), the stresses A -/+ B/r^2, sigma_zz = 2 nu A + E ezz and u(r) = r (sigma_tt - nu (sigma_rr + sigma_zz))/E are compared with the PipeTest output. Required: finite results; stress and axial-strain errors (relative to |A|+|B|/Ri^2) below 100 (h/Ri)^p + 1e-6 with p = 1, 2, 3; displacement errors below 100 (h/Ri)^(p+1) + 1e-6 (1e-6: 25x the rounding floor observed on thin pipes with 200 cubic elements); errors decreasing under refinement while above 1e-5; observed order of the stress error at least p - 0.5 when the coarser mesh has h/Ri <= 0.15 and the errors are above 1e-5.",
     "note": "Trusted: the Lame formulas (generalised plane strain with uniform ezz). A linear elastic problem that PipeTest cannot solve (no convergence) is reported, not excluded: the property quantifies over every geometry and element type. Finite-strain analysis is not covered (the closed form is a small-strain one).",
 }
 
@@ -77,23 +77,40 @@ def gen_case(seed, i):
         n0 = max(1, min(50, int(math.ceil(th / g.uniform(0.02, 0.15)))))
     else:
         n0 = g.randrange(1, 51)
-    return {"i": i, "etype": et, "p": ETYPES[et], "axial": axial, "Ri": Ri, "Re": Re, "th": th, "E": E, "nu": nu, "Pi": Pi, "Pe": Pe, "aval": aval, "n0": n0}
+    # loading history: the problem is linear elastic, so the state at the last time only depends on the loads at that time
+    # whatever the path and the number of steps (constant loads in one step; ramp from zero in one step; up to twice the
+    # final value then down, in four steps)
+    hist = HISTORIES[(i // 12) % len(HISTORIES)]
+    return {"i": i, "etype": et, "p": ETYPES[et], "axial": axial, "Ri": Ri, "Re": Re, "th": th, "E": E, "nu": nu, "Pi": Pi, "Pe": Pe, "aval": aval, "n0": n0,
+            "hist": hist}
+
+
+HISTORIES = ["constant", "ramp", "up-down"]
+
+
+def evolution(c, v):
+    """the mtest evolution reaching the value v at the final time t=1"""
+    if c.get("hist", "constant") == "constant" or v == 0.0:
+        return M.fl(v)
+    if c["hist"] == "ramp":
+        return "{0:0,1:%s}" % M.fl(v)
+    return "{0:0,0.5:%s,1:%s}" % (M.fl(2 * v), M.fl(v))
 
 
 def ptest_text(c, lib, n):
     L = ["@InnerRadius %s;" % M.fl(c["Ri"]), "@OuterRadius %s;" % M.fl(c["Re"]), "@NumberOfElements %d;" % n, "@ElementType '%s';" % c["etype"],
          "@AxialLoading '%s';" % c["axial"], "@PerformSmallStrainAnalysis true;", "@Behaviour<generic> '%s' 'Elasticity';" % lib,
          "@MaterialProperty<constant> 'YoungModulus' %s;" % M.fl(c["E"]), "@MaterialProperty<constant> 'PoissonRatio' %s;" % M.fl(c["nu"]),
-         "@ExternalStateVariable 'Temperature' 293.15;", "@InnerPressureEvolution %s;" % M.fl(c["Pi"]), "@OuterPressureEvolution %s;" % M.fl(c["Pe"]),
-         "@Times {0,1};", "@OutputFilePrecision 17;", "@Profile 'prof.res' {'SRR','STT','SZZ'};",
+         "@ExternalStateVariable 'Temperature' 293.15;", "@InnerPressureEvolution %s;" % evolution(c, c["Pi"]), "@OuterPressureEvolution %s;" % evolution(c, c["Pe"]),
+         "@Times {0,1 in 4};" if c.get("hist") == "up-down" else "@Times {0,1};", "@OutputFilePrecision 17;", "@Profile 'prof.res' {'SRR','STT','SZZ'};",
          # the default residual criterion (1e-3, absolute) is below the rounding noise of thin pipes under high pressure
          # (observed 2e-3 for sigma_tt = 3e9): it is given relative to the stress scale.  The problem being linear, the
          # second Newton iteration is at rounding level whatever the criterion.
          "@ResidualEpsilon %s;" % M.fl(max(1e-3, 1e-9 * lame(c)[5]))]
     if c["axial"] == "ImposedAxialForce":
-        L.append("@AxialForceEvolution %s;" % M.fl(c["aval"]))
+        L.append("@AxialForceEvolution %s;" % evolution(c, c["aval"]))
     if c["axial"] == "ImposedAxialGrowth":
-        L.append("@AxialGrowthEvolution %s;" % M.fl(c["aval"]))
+        L.append("@AxialGrowthEvolution %s;" % evolution(c, c["aval"]))
     return "\n".join(L) + "\n"
 
 
@@ -117,7 +134,10 @@ def run_one(ctx, c, lib, n, doctor=None):
         return o
     try:
         rows = [[float(x) for x in l.split()] for l in (d / "a.res").read_text().splitlines() if l.strip() and not l.startswith("#")]
-        prof = [[float(x) for x in l.split()] for l in (d / "prof.res").read_text().splitlines() if l.strip() and not l.startswith("#")]
+        # one block per time step ("#Time t"): the block of the last time is the one compared
+        pl = (d / "prof.res").read_text().splitlines()
+        marks = [k for k, l in enumerate(pl) if l.startswith("#Time")]
+        prof = [[float(x) for x in l.split()] for l in pl[(marks[-1] if marks else 0):] if l.strip() and not l.startswith("#")]
     except (OSError, ValueError):
         o["status"] = "unreadable"
         return o
@@ -143,7 +163,8 @@ def judge(c, outs):
     """-> list of (key, what)"""
     V = []
     kb = "%s:%s" % (c["etype"], c["axial"])
-    desc = "Ri=%r Re=%r Pi=%r Pe=%r E=%r nu=%r axial=%s(%r) %s" % (c["Ri"], c["Re"], c["Pi"], c["Pe"], c["E"], c["nu"], c["axial"], c["aval"], c["etype"])
+    desc = "Ri=%r Re=%r Pi=%r Pe=%r E=%r nu=%r axial=%s(%r) %s history=%s" % (c["Ri"], c["Re"], c["Pi"], c["Pe"], c["E"], c["nu"], c["axial"], c["aval"], c["etype"],
+                                                                                  c.get("hist"))
     for o in outs:
         if o["status"] == "nan":
             V.append(("%s:nan-results" % kb, "PipeTest reports success but the results are not finite (%d elements): %s" % (o["n"], desc)))
@@ -214,6 +235,11 @@ def run(ctx, doctor=None):
             ctx.add_distinct("c%d" % c["i"])
             ctx.count("judged:%s" % kb)
             ctx.count("judged:%s" % c["etype"])
+            ctx.count("judged:history=%s" % c["hist"])
+            if c["hist"] != "constant" and c["Pe"] != 0.0:
+                ctx.count("judged:outer-pressure-varying-in-time")
+            if c["hist"] != "constant" and c["Pi"] != 0.0:
+                ctx.count("judged:inner-pressure-varying-in-time")
             ctx.count("gauss_points_compared", sum(o["gauss_points"] for o in outs))
             for o in outs:
                 for q, v in o.get("ratios", {}).items():
@@ -226,6 +252,10 @@ def run(ctx, doctor=None):
     cnt = ctx.cov.get("counters", {})
     if cnt.get("watchdog", 0) > max(2, ncase // 50):
         ctx.inconc("%d cases hit the watchdog" % cnt["watchdog"])
+    for h in HISTORIES:
+        ctx.require(cnt.get("judged:history=%s" % h, 0) >= ncase // 6, "too few judged cases with the %s loading history" % h)
+    for q in ("outer", "inner"):
+        ctx.require(cnt.get("judged:%s-pressure-varying-in-time" % q, 0) >= ncase // 6, "too few judged cases with a time-dependent %s pressure" % q)
     for et in ("Linear", "Quadratic"):
         ctx.require(cnt.get("judged:%s" % et, 0) >= ncase // 6, "too few judged cases for %s elements" % et)
         ctx.require(et in orders, "no convergence order observed for %s elements" % et)
